@@ -119,8 +119,9 @@ def run(ctx):
     if len(obs) > 5:
         ctx.sample({'text': texts[obs[5]['id']][0], 'labels': obs[5]['params']})
     ctx.extra['code_to_spec'] = {'decoders': len(decoders()), 'probes': nv, 'call_shaped_probes': shaped}
-    from .render import report_raised
+    from .render import report_raised, report_unstable
     report_raised(ctx, pr)
+    report_unstable(ctx, pr)
     ctx.assumptions += ['decimal / hexadecimal conversion of 64-bit integers is Python\'s (trusted)',
                         'in-domain arguments from the frozen audit; a number is "the argument" if it equals it as '
                         'unsigned or signed 64 / 32 bit value']
